@@ -94,9 +94,11 @@ def run(case, out):
             out.fail("get_accepted_words:missing", n=n, word=list(sorted(wantw - gs, key=lambda w: (len(w), w))[0]))
         base_ok[n] = (gs == wantw and len(gs) == len(gotw))
     # --- unbounded enumeration on finite languages (bounded liveness) -----------
-    if ref.language_is_finite():
+    wantw = ref.all_words() if ref.language_is_finite() else None
+    if wantw is not None and len(wantw) > 1500:
+        out.probe("finite_language_too_large_for_the_liveness_clause")
+    elif wantw is not None:
         out.probe("finite_language")
-        wantw = ref.all_words()
         b = LineBudget(LINE_BUDGET)
         try:
             with b:
